@@ -57,8 +57,8 @@ thr31(N) :- catch(throw(b31(N)), b31(_), true), M is N-1, thr31(M).
 rth31(N) :- catch(lp31(N), E, throw(E)).
 as31(0) :- !.
 as31(N) :- assertz(f31(N)), M is N-1, as31(M).
-digits31([D|T]) --> [D], { char_type(D, decimal_digit(_)) }, !, digits31r(T).
-digits31r([D|T]) --> [D], { char_type(D, decimal_digit(_)) }, !, digits31r(T).
+digits31([D|T]) --> [D], { D @>= '0', D @=< '9' }, !, digits31r(T).
+digits31r([D|T]) --> [D], { D @>= '0', D @=< '9' }, !, digits31r(T).
 digits31r([]) --> [].
 ite31(0,A,A) :- !.
 ite31(N,A,R) :- ( N mod 3 =:= 0 -> A1 is A+1 ; \+ N mod 3 =:= 1 -> A1 is A+2 ; A1 = A ), M is N-1, ite31(M,A1,R).
@@ -92,14 +92,14 @@ TEMPLATES = [
     ("setof", "setof(X, between(1,200,X), L), len31(L,0,R)", "setof/3"),
     ("bagof", "bagof(X-Y, (between(1,150,X), Y = a), L), len31(L,0,R)", "bagof/3 (free-variable machinery)"),
     ("atom_chars", "mk31(200,L), findall(C,(member(X,L),number_chars(X,C)),Cs), len31(Cs,0,R)", "number_chars/2 in a loop"),
-    ("dcg", "number_chars(12345678901234567890123456789012345678901234567890,Cs), phrase(digits31(Ds),Cs), len31(Ds,0,R)", "DCG parsing with char_type/2"),
+    ("dcg", "number_chars(12345678901234567890123456789012345678901234567890,Cs), phrase(digits31(Ds),Cs), len31(Ds,0,R)", "DCG parsing"),
     ("ite", "ite31(800,0,R)", "if-then-else and negation in a loop"),
     ("copy_loop", "cp31(300,f(A,B,[A,B,c])), R = ok", "copy_term/2 in a loop"),
     ("assoc", "findall(K-K,between(1,60,K),Ps), list_to_assoc(Ps,As), get_assoc(30,As,R)", "library(assoc)"),
     ("format", "mk31(60,L), phrase(format_(\"~w~n\",[L]),Cs), length(Cs,R)", "format_//2"),
     ("read", "read_from_chars(\"foo(Bar, [1,2,3], 'q q', \\\"str\\\", 0'a, 1.5e3).\", T), functor(T,_,R)", "read_from_chars/2 (parser)"),
     ("forall", "forall(between(1,300,X), X > 0), R = ok", "forall/2 (double negation)"),
-    ("once_ignore", "lp31(200), once(member(R,[ok,no])), ignore(fail)", "once/1, ignore/1"),
+    ("once_naf", "lp31(200), once(member(R,[ok,no])), \\+ fail", "once/1, \\+/1"),
     ("scc_inner", "setup_call_cleanup(true, lp31(800), true), R = ok", "setup_call_cleanup/3 inside the goal"),
     ("length_enum", "length(L,N), N >= 120, !, R = N", "length/2 enumerating lists"),
     ("string_ops", "atom_chars(A,\"abcdefghij\"), findall(S,sub_atom(A,_,3,_,S),Ss), len31(Ss,0,R)", "sub_atom/5 enumeration"),
@@ -402,6 +402,30 @@ def run(ctx):
                     findings.append(core.Finding("violation" if (at > 0 and at < n) or (at == 0 and m_at > 0 and i >= m_at) or (at >= n + PERIOD) else "disagreement",
                                                  {"class": "delivery-point", "shape": c["shape"], "template": c["template"]},
                                                  "flag raised before instruction %d of %d: consumed at %d, model says %d" % (n, i, at, m_at), single))
+    # inside the goal's own catch/3 the interrupt must be CAUGHT: an uncaught report between two caught
+    # ones of the same sweep means the handler ran and the interrupt was delivered again (or escaped)
+    for c in scases:
+        if "j" in c or c["shape"] == "uncaught":
+            continue
+        pts = []
+        for n in c["ns"]:
+            rid = "%s.%d" % (c["id"], n)
+            i, at, r = parse_qi(impl.get(rid + ".f"))
+            if at:
+                pts.append((at, classify(r, c["ref"]), n))
+        caught_at = [a for a, cl, _ in pts if cl == "caught"]
+        if not caught_at:
+            if len(pts) > 6 and c["total"] > nop_total + 4 * PERIOD:
+                findings.append(core.Finding("violation", {"class": "never-caught", "shape": c["shape"], "template": c["template"]},
+                                             "no interrupt point of this sweep was caught by the goal's own catch/3 (%d delivered)" % len(pts), c))
+            continue
+        lo, hi = min(caught_at), max(caught_at)
+        for a, cl, n in pts:
+            if lo < a < hi and cl == "uncaught_documented":
+                findings.append(core.Finding("violation", {"class": "escaped-own-catch", "shape": c["shape"], "template": c["template"]},
+                                             "interrupt consumed at instruction %d (inside the goal: caught at %d and %d) was not caught by the goal's catch/3" % (a, lo, hi),
+                                             mk_sweep_case(c["template"], c["shape"], c["pad"], [n], c["total"])))
+                break
     return {
         "evaluations": evaluations,
         "distinct_nontrivial": len(delivered_points),
